@@ -216,7 +216,7 @@ ghash_avx512:
 %endif
 
         ;; copy tag to xmm0
-        vmovdqu	xmm0, [arg4]
+        simd_load_avx_16_1 xmm0, arg4, arg5 ; only tag_len bytes are valid
         vpshufb xmm0, [rel SHUF_MASK] ; perform a 16Byte swap
 
         mov     r12, arg2
